@@ -56,4 +56,32 @@ for machine, arch in ((0x8664, "x64"), (0x14c, "x86")):
                              sample={"machine": hex(machine), "e_lfanew": e, "sections": nsec, "prepend": len(prep)},
                              witness={"machine": hex(machine), "e_lfanew": e, "nsec": nsec, "rva": hex(rva), "prepend": len(prep),
                                       "got": [mo, a, cs, es, repr(pre)[:20], repr(ap)[:20]]})
-emit([ver, pec])
+# ---------------------------------------------------------------- the deduced version follows the CURRENT attributes
+from dissect.cobaltstrike.beacon import BeaconConfig
+cur = Component("deduced-version-follows-current-stamps",
+                "BeaconConfig objects with every max setting index of the table (and some unknown ones): version read before a PE export "
+                "stamp is known, after one is assigned (every table stamp + unknown stamps), after it is cleared again, in both orders; "
+                "the result is the export-stamp entry when a stamp is present, else the setting-index entry, 'Unknown' when absent")
+def block_with_max_index(mx):
+    return bytes.fromhex("0001000100020008") + mx.to_bytes(2, "big") + bytes.fromhex("00010002") + b"\x00\x01" + b"\x00\x00"
+stamps = sorted(PE_EXPORT_STAMP_TO_VERSION)
+for mx in sorted(MAX_ENUM_TO_VERSION) + [2, 60000]:
+    by_index = MAX_ENUM_TO_VERSION.get(mx, "Unknown")
+    for st in rng.sample(stamps, 3) + [12345]:
+        by_stamp = PE_EXPORT_STAMP_TO_VERSION.get(st, "Unknown")
+        try:
+            c1 = BeaconConfig(block_with_max_index(mx))
+            v0 = str(c1.version)
+            c1.pe_export_stamp = st
+            v1 = str(c1.version)
+            c1.pe_export_stamp = None
+            v2 = str(c1.version)
+            c2 = BeaconConfig(block_with_max_index(mx))
+            c2.pe_export_stamp = st
+            w1 = str(c2.version)
+            ok = v0 == by_index and v1 == by_stamp and v2 == by_index and w1 == by_stamp
+            got = [v0, v1, v2, w1]
+        except Exception as ex:   # noqa
+            ok, got = False, repr(ex)
+        cur.case((mx, st), ok, witness={"max_setting_index": mx, "export_stamp": st, "expected": [by_index, by_stamp, by_index, by_stamp], "got": got})
+emit([ver, pec, cur])
